@@ -42,8 +42,15 @@ Proof.
   destruct (use && have); destruct p; split; intros H; try reflexivity; try discriminate.
 Qed.
 
+(* fast_matvec: the compiled DMRG is entered only with the extension, use_cpp and at least two cores; an order-1 product is always
+   computed by the Python path (which returns the exact product, C11) *)
+Theorem C17_dispatch_matvec have use d : (dispatch_matvec have use d = BCpp 0 <-> have = true /\ use = true /\ (2 <= d)%nat) /\
+  (dispatch_matvec have use d <> BCpp 0 -> dispatch_matvec have use d = BPython) /\ dispatch_matvec have use 1%nat = BPython.
+Proof. exact (dispatch_matvec_spec have use d). Qed.
+
 Print Assumptions C17_cpp_py_rank_agree_bounded.
 Print Assumptions C17_cpp_py_rank_agree.
 Print Assumptions C17_cpp_rank_tail.
 Print Assumptions C17_cpp_py_differ_nonpositive_eps.
 Print Assumptions C17_dispatch_total.
+Print Assumptions C17_dispatch_matvec.
